@@ -500,6 +500,27 @@ func c19Worker(ctx *core.Ctx) *core.Result {
 					}
 					os.RemoveAll(lv.dir)
 				}
+				// the same with one more good commit arriving first
+				serial++
+				if lv2, err := box.clone(filepath.Join(base, fmt.Sprintf("s%d-live2", serial))); err == nil {
+					if err := lv2.applyEvent("commit-good"); err == nil {
+						maxB := lv2.maxN
+						lr := lv2.run(0, "live2")
+						lst := lv2.observe()
+						res.Transitions++
+						cur := filepath.Join(lv2.dir, "base", "policies", lst.Current)
+						if sig, msg := lv2.invariants(lst, st, maxB); sig != "" {
+							c19Violation(res, full, sig+":commit+next-run", msg, "commit-good", "run")
+						} else if lr.exit != 0 {
+							c19Violation(res, full, "commit+next-run-failed:"+eventKind(ev), fmt.Sprintf("after one more good commit the next undisturbed run ends with exit status %d", lr.exit), "commit-good", "run")
+						} else if lst.Current == "" || readTrim(filepath.Join(cur, "src", "data")) != lst.RemoteData {
+							c19Violation(res, full, "commit+next-run-does-not-catch-up:"+eventKind(ev)+":"+killedAt(ev, box),
+								fmt.Sprintf("after one more good commit and an undisturbed run the newest revision (data=%s) is not current (current=%q data=%s); state before: %s",
+									lst.RemoteData, lst.Current, readTrim(filepath.Join(cur, "src", "data")), st.canon()), "commit-good", "run")
+						}
+					}
+					os.RemoveAll(lv2.dir)
+				}
 			}
 			res.Nontrivial++
 			res.Outcome(eventKind(ev) + " -> " + short(st.canon(), 100))
@@ -604,7 +625,7 @@ func init() {
 		Run: c19Run,
 		Meta: func(tier string) core.Meta {
 			return core.Meta{ID: "C19", Level: "model_checking",
-				Rule: "explicit-state BFS over histories of the real bin/newpolicy.sh in a sandbox (own HOME, bare git remote, committer clone, stub 'netspoc' that writes code in separately killable steps and a marker last, stub 'mail', real get-netspoc-approve-conf, real git/flock); the script runs unmodified under BASH_ENV (set -T; trap DEBUG): events = good commit, bad commit with / without author e-mail, two bad commits, undisturbed run, run killed (SIGKILL to the process group) before step k for every k of the run's simple commands; states = directory trees canonicalised (policy numbers and data versions by rank); invariants after every event: 'current' absent or a symlink to an existing, completely compiled policy of a compiling revision whose code matches its source; every new pN greater than all numbers seen; a non-compiling head never changes 'current'; and from every reached state one undisturbed run must succeed and make the newest compiling revision current; concurrency: a second newpolicy.sh is run to completion while the first is paused at each step (must exit 1 exactly when the first holds the lock), then the first is resumed; every transition is a run of the real script (traces_validated = transitions)",
+				Rule: "explicit-state BFS over histories of the real bin/newpolicy.sh in a sandbox (own HOME, bare git remote, committer clone, stub 'netspoc' that writes code in separately killable steps and a marker last, stub 'mail', real get-netspoc-approve-conf, real git/flock); the script runs unmodified under BASH_ENV (set -T; trap DEBUG): events = good commit, bad commit with / without author e-mail, two bad commits, undisturbed run, run killed (SIGKILL to the process group) before step k for every k of the run's simple commands; states = directory trees canonicalised (policy numbers and data versions by rank); invariants after every event: 'current' absent or a symlink to an existing, completely compiled policy of a compiling revision whose code matches its source; every new pN greater than all numbers seen; a non-compiling head never changes 'current'; and from every reached state one undisturbed run must succeed and make the newest compiling revision current, also when one more good commit arrives before that run; concurrency: a second newpolicy.sh is run to completion while the first is paused at each step (must exit 1 exactly when the first holds the lock), then the first is resumed; every transition is a run of the real script (traces_validated = transitions)",
 				Assumptions: []string{"kills inside git/mv/ln themselves (single system calls, git's own crash safety) and the real Netspoc compiler are outside", "sudo wrapper not exercised (no sudo in the sandbox)"},
 				Bounds:      map[string]any{"quick": "depth 2 from 3 initial states", "thorough": "depth 3"},
 			}
